@@ -98,6 +98,8 @@ def gen_cases(tier, seed):
         cases.append({"id": "docset-%d" % k, "sig": ["docset", k], "kind": "docset", "k": k})
     for k in range(8 if tier == "quick" else 80):
         cases.append({"id": "reload-%d" % k, "sig": ["reload", k], "kind": "reload", "k": k})
+    for k in range(12 if tier == "quick" else 120):
+        cases.append({"id": "mixed-%d" % k, "sig": ["mixed", k], "kind": "mixed", "k": k})
     for variant in ("valid", "tampered", "wrong-cert", "unsigned-with-cert", "signed-no-cert", "wrapped-root"):
         for wrapped in (0, 1):
             cases.append({"id": "signed-%s-%s" % (variant, "entities" if wrapped else "entity"), "sig": ["signed", variant, wrapped], "kind": "signed",
@@ -176,6 +178,48 @@ def run_reload(case, ctx, viol, counters, sigs):
             break
         counters["reloads"] = counters.get("reloads", 0) + (1 if g else 0)
     os.unlink(path)
+    clock.set_now(None)
+
+
+def run_mixed(case, ctx, viol, counters, sigs):
+    """sources of different loader kinds with per-source options (check_validity, node_name) in a generated order: an option given for one
+    source must not leak into the others"""
+    import os
+    rng = random.Random("%s/%s" % (ctx.seed, case["id"]))
+    clock.install()
+    clock.set_now(T0)
+    store = new_store()
+    sources = []
+    served_model = []
+    n = rng.randint(2, 4)
+    for si in range(n):
+        ids = rng.sample(POOL[:5], rng.randint(1, 3))
+        src = {"entities": [gen_entity(rng, e, "m%d" % si) for e in ids], "wrapped": True, "valid_until": rng.choice([None, "future", "past"])}
+        kind = rng.choice(["remote", "remote-novalidity", "local", "inline"])
+        xml = render(src)
+        try:
+            if kind.startswith("remote"):
+                store.http = StubHTTP(xml)
+                kw = {"url": "https://md%d.example.org/fed.xml" % si}
+                if kind == "remote-novalidity":
+                    kw["check_validity"] = False
+                store.load("remote", **kw)
+            elif kind == "local":
+                path = os.path.join(ctx.scratch, "mixed-%s-%d.xml" % (case["k"], si))
+                with open(path, "w") as f:
+                    f.write(xml)
+                store.load("local", path)
+                os.unlink(path)
+            else:
+                store.load("inline", xml)
+        except Exception as exc:
+            counters["load_raised:" + type(exc).__name__] = counters.get("load_raised:" + type(exc).__name__, 0) + 1
+        if kind == "remote-novalidity":
+            # this source alone was told not to look at validUntil: model it as if nothing in it could expire
+            src = {"entities": [dict(e, valid_until=None) for e in src["entities"]], "wrapped": True, "valid_until": None}
+        sources.append(src)
+        counters["mixed_sources:" + kind] = counters.get("mixed_sources:" + kind, 0) + 1
+    compare(case, store, sources, viol, counters, sigs, tag="mixed-loaders")
     clock.set_now(None)
 
 
@@ -474,6 +518,8 @@ def run_case(case, ctx):
         run_docset(case, ctx, viol, counters, sigs)
     elif case["kind"] == "reload":
         run_reload(case, ctx, viol, counters, sigs)
+    elif case["kind"] == "mixed":
+        run_mixed(case, ctx, viol, counters, sigs)
     elif case["kind"] == "signed":
         run_signed(case, ctx, viol, counters, sigs)
     else:
